@@ -30,7 +30,7 @@ Export == /\ (syntax = "proto2" /\ fs = {} /\ added = 0) => PrintT("CASE " \o To
           /\ (Valid(syntax, fs) /\ added >= ExportMin) => PrintT("CASE " \o ToJson(Case))
 
 (* design-level sanity of the path grammar on every enumerated shape (TLC checks it in each state) *)
-NMsgs == 1 + (IF "service" \in fs THEN 2 ELSE 0) + (IF "customopt" \in fs THEN 1 ELSE 0)
+NMsgs == 1 + (IF "extgroup" \in fs THEN 2 ELSE 0) + (IF "service" \in fs THEN 2 ELSE 0) + (IF "customopt" \in fs THEN 1 ELSE 0)
 GrammarSane ==
   LET sh == Shape(syntax, fs)  ex == Exts(fs)  cu == Custom(fs)
       ok(p) == Interpretable(p, sh, ex, cu)
